@@ -7,6 +7,7 @@ CONSTANTS
   MaxPos = 6
   Extra = 2
   MaxKw = 2
+  NSim = 0
   KindMode = "pat"
   Dump = TRUE
 INVARIANT RefIsDeclarative
